@@ -842,8 +842,13 @@ def history_strategy(version):
 def listeners_strategy(nhist):
     def L(cls):
         pool = IN_FILTERS if cls[0] == 'i' else OUT_FILTERS
-        types = st.lists(st.sampled_from(pool), min_size=1, max_size=3,
-                         unique=True)
+        # (an empty filter is legal and selects nothing, however the
+        # listener is registered)
+        types = st.one_of(
+            st.lists(st.sampled_from(pool), min_size=1, max_size=3,
+                     unique=True),
+            st.lists(st.sampled_from(pool), min_size=0, max_size=3,
+                     unique=True))
         ignore = st.lists(st.integers(0, nhist + 6), max_size=4, unique=True)
         write = st.one_of(st.none(), st.none(), st.tuples(
             st.sampled_from(['queued', 'forced']),
@@ -921,6 +926,13 @@ def t_fixed(ctx):
              'write': None},
             {'cls': 'io', 'types': ['LoginSetCompression', 'LoginDisconnect'],
              'ignore': [], 'write': None},
+            # empty filters: never called, in all four classes
+            {'cls': 'ie', 'types': [], 'ignore': [0, 1, 2, 3, 4, 5],
+             'write': None},
+            {'cls': 'io', 'types': [], 'ignore': [], 'write': None},
+            {'cls': 'oe', 'types': [], 'ignore': [2, 3, 4, 5, 6],
+             'write': None},
+            {'cls': 'oo', 'types': [], 'ignore': [], 'write': None},
             # the same callables again, with other filters, after the others
             {'cls': 'io', 'types': ['Chat', 'CbKA'], 'ignore': [],
              'write': None, 'same_as': 0},
